@@ -9,99 +9,8 @@
 //@typemap /<'a, R: RngCore>/ => <'a>
 //@typemap /&mut R\b/ => &mut Rng
 //@enum file=poly-commit/src/error.rs name=Error
-// ---- environment (abstract): the scheme's own types and its per-point `check` ----
-#[verifier::external_body] pub struct VK { _x: u8 }
-#[verifier::external_body] pub struct Comm { _x: u8 }
-#[verifier::external_body] pub struct Pt { _x: u8 }
-#[verifier::external_body] pub struct Proof { _x: u8 }
-pub struct BatchProof { pub v: Vec<Proof> }
-impl Pt { #[verifier::external_body] pub fn clone(&self) -> (r: Pt) ensures r == *self { unimplemented!() } }
-// `proof.clone().into()` : BatchProof -> Vec<Proof>
-#[verifier::external_body] pub fn batch_proof_to_vec(p: &BatchProof) -> (r: Vec<Proof>) ensures r@ == p.v@ { unimplemented!() }
-// the decision of the scheme's per-point verifier and the sponge state it leaves: deterministic functions of its inputs
-// (the verifier's own RNG does not enter: the schemes that use this default method ignore it)
-pub enum Dec { Accept, Reject, Error }
-pub uninterp spec fn chk_dec(vk: &VK, comms: Seq<&LabeledCommitment<Comm>>, point: Pt, values: Seq<Fr>, proof: Proof, s: SS) -> Dec;
-pub uninterp spec fn chk_sponge(vk: &VK, comms: Seq<&LabeledCommitment<Comm>>, point: Pt, values: Seq<Fr>, proof: Proof, s: SS) -> SS;
-// order of the BTree collections on labels: a strict total order (lexicographic on strings), exposed only through sortedness of iteration
-pub uninterp spec fn key_lt(a: String, b: String) -> bool;
-// iteration sequence of a set (its elements, each once)
-pub uninterp spec fn set_seq(s: Set<(String, (String, Pt))>) -> Seq<(String, (String, Pt))>;
-#[verifier::external_body] pub fn query_set_to_vec(s: &BTreeSet<(String, (String, Pt))>) -> (r: Vec<&(String, (String, Pt))>)
-    ensures r@.len() == set_seq(s@).len(), forall|i: int| 0 <= i < r@.len() ==> *(#[trigger] r@[i]) == set_seq(s@)[i],
-            forall|q: (String, (String, Pt))| s@.contains(q) == (exists|i: int| 0 <= i < set_seq(s@).len() && #[trigger] set_seq(s@)[i] == q) { unimplemented!() }
-#[verifier::external_body] pub fn string_to_string(s: &String) -> (r: String) ensures r == *s { unimplemented!() }
-pub open spec fn set_vals(s: Set<&String>) -> Set<String> { s.map(|r: &String| *r) }
-// `let labels = m.entry(point_label).or_insert((point, BTreeSet::new())); labels.1.insert(label);`
-#[verifier::external_body]
-pub fn group_insert<'a>(m: &mut BTreeMap<&'a String, (&'a Pt, BTreeSet<&'a String>)>, point_label: &'a String, point: &'a Pt, label: &'a String)
-    ensures final(m)@.dom() == old(m)@.dom().insert(point_label),
-        old(m)@.dom().contains(point_label) ==> final(m)@[point_label].0 == old(m)@[point_label].0 && final(m)@[point_label].1@ == old(m)@[point_label].1@.insert(label),
-        !old(m)@.dom().contains(point_label) ==> final(m)@[point_label].0 == point && final(m)@[point_label].1@ == Set::<&String>::empty().insert(label),
-        forall|k: &String| k != point_label && old(m)@.dom().contains(k) ==> final(m)@[k] == old(m)@[k] { unimplemented!() }
-// BTreeMap::into_iter: the entries in increasing key order; BTreeSet::into_iter likewise
-#[verifier::external_body]
-pub fn map_into_sorted_vec<'a>(m: BTreeMap<&'a String, (&'a Pt, BTreeSet<&'a String>)>) -> (r: Vec<(&'a String, (&'a Pt, BTreeSet<&'a String>))>)
-    ensures r@.len() == m@.dom().len(), m@.dom().finite(),
-        forall|i: int| 0 <= i < r@.len() ==> m@.dom().contains((#[trigger] r@[i]).0) && r@[i].1 == m@[r@[i].0],
-        forall|k: &String| m@.dom().contains(k) ==> exists|i: int| 0 <= i < r@.len() && (#[trigger] r@[i]).0 == k,
-        forall|i: int, j: int| 0 <= i < j < r@.len() ==> key_lt(*(#[trigger] r@[i]).0, *(#[trigger] r@[j]).0) && r@[i].0 != r@[j].0 { unimplemented!() }
-pub uninterp spec fn labels_seq(s: Set<String>) -> Seq<String>;     // the sorted enumeration of a label set
-#[verifier::external_body]
-pub fn set_into_sorted_vec<'a>(s: BTreeSet<&'a String>) -> (r: Vec<&'a String>)
-    ensures r@.len() == labels_seq(set_vals(s@)).len(), forall|i: int| 0 <= i < r@.len() ==> *(#[trigger] r@[i]) == labels_seq(set_vals(s@))[i] { unimplemented!() }
-#[verifier::external_body] pub fn btree_get_by_label<'b, V>(m: &'b BTreeMap<&String, V>, k: &String) -> (r: Option<&'b V>)
-    ensures (r is Some) == m@.dom().contains(k), r is Some ==> *r->Some_0 == m@[k] { unimplemented!() }
-#[verifier::external_body] pub fn map_len<'a>(m: &BTreeMap<&'a String, (&'a Pt, BTreeSet<&'a String>)>) -> (r: usize) ensures r == m@.dom().len(), m@.dom().finite() { unimplemented!() }
-
-// ======================= specification =======================
-// the grouping of the queries by point label, as built by iterating the query set: the point of a group is the point of the
-// first query seen with that point label; its labels are all polynomial labels queried under that point label
-pub open spec fn gmap(q: Seq<(String, (String, Pt))>, k: nat) -> Map<String, (Pt, Set<String>)> decreases k {
-    if k == 0 { Map::empty() } else {
-        let m = gmap(q, (k - 1) as nat); let e = q[k - 1];
-        if m.dom().contains(e.1.0) { m.insert(e.1.0, (m[e.1.0].0, m[e.1.0].1.insert(e.0))) } else { m.insert(e.1.0, (e.1.1, Set::<String>::empty().insert(e.0))) }
-    }
-}
-// commitments by label: the last one wins (BTreeMap::from_iter)
-pub open spec fn c_is_last(cs: Seq<&LabeledCommitment<Comm>>, i: int) -> bool { 0 <= i < cs.len() && forall|j: int| i < j < cs.len() ==> (#[trigger] cs[j]).label != cs[i].label }
-pub open spec fn cmap_ok(m: Map<&String, &LabeledCommitment<Comm>>, cs: Seq<&LabeledCommitment<Comm>>) -> bool {
-    (forall|k: &String| m.dom().contains(k) == (exists|i: int| 0 <= i < cs.len() && (#[trigger] cs[i]).label == *k))
-    && (forall|i: int| #[trigger] c_is_last(cs, i) ==> m[&cs[i].label] == cs[i])
-}
-// the per-group inputs of `check`: commitments and claimed values of the group's labels, in label order
-pub open spec fn gather_ok(m: Map<&String, &LabeledCommitment<Comm>>, ev: Map<(String, Pt), Fr>, pt: Pt, ls: Seq<String>, k: nat) -> bool {
-    forall|i: int| 0 <= i < k ==> m.dom().contains(&#[trigger] ls[i]) && ev.dom().contains((ls[i], pt))
-}
-pub open spec fn gather_c<'a>(m: Map<&'a String, &'a LabeledCommitment<Comm>>, ls: Seq<String>) -> Seq<&'a LabeledCommitment<Comm>> { Seq::new(ls.len(), |i: int| m[&ls[i]]) }
-pub open spec fn gather_v(ev: Map<(String, Pt), Fr>, pt: Pt, ls: Seq<String>) -> Seq<Fr> { Seq::new(ls.len(), |i: int| ev[(ls[i], pt)]) }
-// outcome of the batch after the first k groups (in point-label order): None = error, Some((all accepted so far, sponge state))
-pub open spec fn brun(vk: &VK, m: Map<&String, &LabeledCommitment<Comm>>, ev: Map<(String, Pt), Fr>, gs: Seq<(String, (Pt, Set<String>))>, proofs: Seq<Proof>, s0: SS, k: nat) -> Option<(bool, SS)> decreases k {
-    if k == 0 { Some((true, s0)) } else {
-        match brun(vk, m, ev, gs, proofs, s0, (k - 1) as nat) {
-            None => None,
-            Some((b, s)) => {
-                let g = gs[k - 1]; let ls = labels_seq(g.1.1);
-                if !gather_ok(m, ev, g.1.0, ls, ls.len()) { None } else {
-                    match chk_dec(vk, gather_c(m, ls), g.1.0, gather_v(ev, g.1.0, ls), proofs[k - 1], s) {
-                        Dec::Error => None,
-                        Dec::Accept => Some((b, chk_sponge(vk, gather_c(m, ls), g.1.0, gather_v(ev, g.1.0, ls), proofs[k - 1], s))),
-                        Dec::Reject => Some((false, chk_sponge(vk, gather_c(m, ls), g.1.0, gather_v(ev, g.1.0, ls), proofs[k - 1], s))),
-                    }
-                }
-            }
-        }
-    }
-}
-// the sorted group list of a query set: one entry per point label, in label order
-pub open spec fn groups_of(qs: Set<(String, (String, Pt))>, gs: Seq<(String, (Pt, Set<String>))>) -> bool {
-    let g = gmap(set_seq(qs), set_seq(qs).len());
-    (forall|i: int, j: int| 0 <= i < j < gs.len() ==> (#[trigger] gs[i]).0 != (#[trigger] gs[j]).0)     // each point label once
-    && (forall|i: int| 0 <= i < gs.len() ==> g.dom().contains((#[trigger] gs[i]).0) && gs[i].1 == g[gs[i].0])
-    && (forall|k: String| g.dom().contains(k) ==> exists|i: int| 0 <= i < gs.len() && (#[trigger] gs[i]).0 == k)
-    && (forall|i: int, j: int| 0 <= i < j < gs.len() ==> key_lt((#[trigger] gs[i]).0, (#[trigger] gs[j]).0))
-}
-
+//@use pcenv
+//@spec batch_spec
 pub struct PC;
 impl PC {
     // Self::check of the scheme
@@ -118,11 +27,7 @@ impl PC {
         // the batch is decided group by group (one group per point label, in label order), each group by ONE call of the
         // per-point verifier on exactly the commitments and claimed values of the labels queried under that point label;
         // the result is the conjunction; a missing commitment / evaluation or an error of a per-point check is an error
-        exists|gs: Seq<(String, (Pt, Set<String>))>, m: Map<&String, &LabeledCommitment<Comm>>| #![trigger groups_of(query_set@, gs), cmap_ok(m, commitments@)]
-            groups_of(query_set@, gs) && cmap_ok(m, commitments@) && gs.len() == proof.v@.len()     // (a different number of proofs aborts)
-            && (res is Err) == (brun(vk, m, evaluations@, gs, proof.v@, old(sponge).st@, gs.len()) is None)
-            && (res is Ok ==> res->Ok_0 == brun(vk, m, evaluations@, gs, proof.v@, old(sponge).st@, gs.len())->Some_0.0
-                           && final(sponge).st@ == brun(vk, m, evaluations@, gs, proof.v@, old(sponge).st@, gs.len())->Some_0.1),   // name=lib.batch_check.conjunction_of_per_point_checks props=C05,C11,C17
+        batch_post(vk, commitments@, query_set@, evaluations@, proof.v@, old(sponge).st@, res, final(sponge).st@),   // name=lib.batch_check.conjunction_of_per_point_checks props=C05,C11,C17
 //@body
 //@rw 1 /(?s)let commitments: BTreeMap<_, _> = (commitments\.into_iter\(\)\.map\(.*?\))\.collect\(\);/ => let cv__: Vec<(&String, &LabeledCommitment<Comm>)> = \1.collect();
         let commitments: BTreeMap<&String, &LabeledCommitment<Comm>> = btree_from_pairs(cv__);
@@ -226,59 +131,4 @@ impl PC {
 //@before /Ok\(result\)\s*\}$/
         proof { assert(groups_of(query_set@, gs) && cmap_ok(commitments@, cs0)); }
 //@end
-}
-pub open spec fn qmap_abs(m: Map<&String, (&Pt, BTreeSet<&String>)>, g: Map<String, (Pt, Set<String>)>) -> bool {
-    (forall|k: &String| m.dom().contains(k) == g.dom().contains(*k))
-    && (forall|k: &String| m.dom().contains(k) ==> *(#[trigger] m[k]).0 == g[*k].0 && set_vals(m[k].1@) == g[*k].1)
-}
-pub proof fn lemma_set_vals_insert(s: Set<&String>, r: &String)
-    ensures set_vals(s.insert(r)) == set_vals(s).insert(*r), set_vals(Set::<&String>::empty()) == Set::<String>::empty()
-{
-    assert forall|x: String| set_vals(s.insert(r)).contains(x) == set_vals(s).insert(*r).contains(x) by {
-        if set_vals(s.insert(r)).contains(x) { let w = choose|w: &String| s.insert(r).contains(w) && *w == x; if w != r { assert(s.contains(w)); } }
-        if set_vals(s).insert(*r).contains(x) { if x == *r { assert(s.insert(r).contains(r)); } else { let w = choose|w: &String| s.contains(w) && *w == x; assert(s.insert(r).contains(w)); } }
-    }
-    assert(set_vals(s.insert(r)) =~= set_vals(s).insert(*r));
-    assert(set_vals(Set::<&String>::empty()) =~= Set::<String>::empty());
-}
-// one query processed: the exec map follows gmap
-pub proof fn lemma_gmap_step(m0: Map<&String, (&Pt, BTreeSet<&String>)>, m1: Map<&String, (&Pt, BTreeSet<&String>)>, q: Seq<(String, (String, Pt))>, k: nat, pl: &String, pt: &Pt, l: &String)
-    requires
-        k < q.len(), q[k as int] == (*l, (*pl, *pt)), qmap_abs(m0, gmap(q, k)),
-        m1.dom() == m0.dom().insert(pl),
-        m0.dom().contains(pl) ==> m1[pl].0 == m0[pl].0 && m1[pl].1@ == m0[pl].1@.insert(l),
-        !m0.dom().contains(pl) ==> m1[pl].0 == pt && m1[pl].1@ == Set::<&String>::empty().insert(l),
-        forall|k2: &String| k2 != pl && m0.dom().contains(k2) ==> m1[k2] == m0[k2],
-    ensures qmap_abs(m1, gmap(q, k + 1))
-{
-    let g0 = gmap(q, k); let g1 = gmap(q, k + 1);
-    assert(gmap(q, (k + 1) as nat) == if g0.dom().contains(*pl) { g0.insert(*pl, (g0[*pl].0, g0[*pl].1.insert(*l))) } else { g0.insert(*pl, (*pt, Set::<String>::empty().insert(*l))) });
-    if m0.dom().contains(pl) { lemma_set_vals_insert(m0[pl].1@, l); } else { lemma_set_vals_insert(Set::<&String>::empty(), l); }
-    assert forall|k2: &String| m1.dom().contains(k2) == g1.dom().contains(*k2) by { }
-    assert forall|k2: &String| m1.dom().contains(k2) implies *(#[trigger] m1[k2]).0 == g1[*k2].0 && set_vals(m1[k2].1@) == g1[*k2].1 by {
-        if k2 != pl { assert(m0.dom().contains(k2)); }
-    }
-}
-pub proof fn lemma_brun_none(vk: &VK, m: Map<&String, &LabeledCommitment<Comm>>, ev: Map<(String, Pt), Fr>, gs: Seq<(String, (Pt, Set<String>))>, proofs: Seq<Proof>, s0: SS, k: nat, n: nat)
-    requires k <= n, brun(vk, m, ev, gs, proofs, s0, k) is None
-    ensures brun(vk, m, ev, gs, proofs, s0, n) is None
-    decreases n
-{ if k < n { lemma_brun_none(vk, m, ev, gs, proofs, s0, k, (n - 1) as nat); } }
-pub proof fn lemma_groups(qs: Set<(String, (String, Pt))>, m: Map<&String, (&Pt, BTreeSet<&String>)>, gv: Seq<(&String, (&Pt, BTreeSet<&String>))>, gs: Seq<(String, (Pt, Set<String>))>)
-    requires
-        qmap_abs(m, gmap(set_seq(qs), set_seq(qs).len())),
-        gv.len() == m.dom().len(), m.dom().finite(),
-        forall|i: int| 0 <= i < gv.len() ==> m.dom().contains((#[trigger] gv[i]).0) && gv[i].1 == m[gv[i].0],
-        forall|k: &String| m.dom().contains(k) ==> exists|i: int| 0 <= i < gv.len() && (#[trigger] gv[i]).0 == k,
-        forall|i: int, j: int| 0 <= i < j < gv.len() ==> key_lt(*(#[trigger] gv[i]).0, *(#[trigger] gv[j]).0) && gv[i].0 != gv[j].0,
-        gs == Seq::new(gv.len(), |i: int| (*gv[i].0, (*gv[i].1.0, set_vals(gv[i].1.1@)))),
-    ensures groups_of(qs, gs)
-{
-    let g = gmap(set_seq(qs), set_seq(qs).len());
-    assert forall|i: int, j: int| 0 <= i < j < gs.len() implies (#[trigger] gs[i]).0 != (#[trigger] gs[j]).0 by { assert(gv[i].0 != gv[j].0); }
-    assert forall|k: String| g.dom().contains(k) implies exists|i: int| 0 <= i < gs.len() && (#[trigger] gs[i]).0 == k by {
-        assert(m.dom().contains(&k));
-        let i = choose|i: int| 0 <= i < gv.len() && (#[trigger] gv[i]).0 == &k; assert(gs[i].0 == k);
-    }
-    assert forall|i: int, j: int| 0 <= i < j < gs.len() implies key_lt((#[trigger] gs[i]).0, (#[trigger] gs[j]).0) by { assert(key_lt(*gv[i].0, *gv[j].0)); }
 }
